@@ -311,6 +311,11 @@ def gen_many_files_buffer(rng, files):
     b.add('local = target(2j)', [('get_references', 'targ', None), ('get_references', 'targ', {'scope': 'file'}),
                                  ('infer', 'loca', None), ('goto', 'targ', None)])
     b.add('local.x', [('complete', 'local.', None)])
+    # iterating a list / set literal starts the search for calls that add elements to it
+    b.add('for flag in [1.5, "s"]:')
+    b.add('    flag', [('infer', '    fla', None)])
+    b.add('for member in {2, b"x"}:')
+    b.add('    member', [('infer', '    membe', None)])
     probes = list(b.probes)
     probes.append({'m': 'rename_diff', 'l': 1, 'c': 5, 'new': 'target_renamed'})
     probes.append({'m': 'search', 'q': 'target'})
